@@ -228,7 +228,10 @@ def coq_make():
         changed = write_coqproject()
         if changed or not os.path.exists(os.path.join(COQ, "Makefile")):
             sh("coq_makefile -f _CoqProject -o Makefile", cwd=COQ, check=True)
-        rc, log = sh("timeout 3000 make -j16 2>&1", cwd=COQ, timeout=3100)
+        # -k: a property file that no longer compiles (e.g. a facts obligation
+        # broken by a change to /repo) must not stop the files of the other
+        # properties from being built
+        rc, log = sh("timeout 3000 make -k -j16 2>&1", cwd=COQ, timeout=3100)
     _coq_made = rc == 0
     return rc, log
 
@@ -345,10 +348,10 @@ class Check:
             self.broken_obligation("forbidden construct in the Coq development: " + "; ".join(bad[:5]))
             return False
         rc, log = coq_make()
-        if rc != 0:
-            self.broken_obligation("the Coq development no longer builds:\n" + log[-3000:])
-            return False
+        self.make_rc = rc
         r = coq_check_property(self.pid)
+        if rc != 0 and r["ok"]:
+            self.notes.append("make -k reported errors in files this property does not depend on (other properties' obligations); Properties/%s.v and its dependencies compiled" % self.pid)
         self.cov["obligations"] = r["obligations"]
         self.cov["discharged"] = r["discharged"]
         self.cov["theorems"] = r["theorems"]
